@@ -89,7 +89,7 @@ func VerifH_C20_creation_and_loading_share_nothing() {
 func VerifH_C20_library_calls_do_not_leak() {
 	a, b := vhNewRun(), vhNewRun()
 	before := verifSharedState()
-	which := verifChoose("fn", 4)
+	which := verifChoose("fn", 5)
 	n := nondetInt64("n")
 	var kf string
 	switch which {
@@ -124,6 +124,34 @@ func VerifH_C20_library_calls_do_not_leak() {
 		vhLuaOK(a, `local n = ... pcall(error, n); local t = setmetatable({}, {__index = function() error("x") end}); pcall(function() return t.y end)`, vhInt(n))
 		res := vhLuaOK(b, `return 1 + 1`)
 		verifAssert(len(res) == 1 && vhSame(res[0], vhInt(2)), "failures-in-A-do-not-affect-B")
+	case 4: // both runtimes use the same patterns, formats and library helpers
+		const prog = `local n = ...
+local k, v = ("k1=" .. n):match("(%a+%d)=(%-?%d+)")
+local s, c = ("a b c"):gsub("%s", "_")
+local p = string.pack("<i4", 7)
+return k, v, s, c, #p, ("%5d|%s"):format(3, "x"), select("#", table.unpack({1, 2, 3}))`
+		if !verifSymbolic() {
+			// native demonstration: the same program in A and B at the same time
+			// (the replay binary is built with the race detector)
+			var wg sync.WaitGroup
+			for _, r := range []*vhRun{a, b} {
+				wg.Add(1)
+				r := r
+				go func() {
+					defer wg.Done()
+					for i := 0; i < 300; i++ {
+						vhLuaOK(r, prog, vhInt(n))
+					}
+				}()
+			}
+			wg.Wait()
+		}
+		ra := vhLuaOK(a, prog, vhInt(n))
+		rb := vhLuaOK(b, prog, vhInt(n))
+		verifAssert(len(ra) == 7 && len(rb) == 7, "program-runs-in-both-runtimes")
+		for i := 0; i < len(ra) && i < len(rb); i++ {
+			verifAssert(vhSame(ra[i], rb[i]), "same-program-same-results-in-both-runtimes")
+		}
 	}
 	verifAssertKF(verifSharedState() == before, "no-shared-state-touched", kf != "", kf)
 }
